@@ -110,6 +110,9 @@ structure Cfg where
   playAgainResponds : Bool
   /-- `onPlay`: `status = statusPlaying` only when the response that was written is 200 -/
   playingNeedsOk : Bool
+  /-- `newResponse` sets the Session header of every response to the session's id, which is
+      assigned once (in `newSession`), and nothing else touches that header -/
+  sidCarried : Bool
 
 structure Sess where
   /-- `s.wsconn != nil` -/
